@@ -26,6 +26,7 @@
 -/
 import EG.Lemmas.ThickGeoMetric
 import EG.Lemmas.ThickGeoHole
+import EG.Lemmas.ThickGeoBandMetric
 import EG.Lemmas.ThickTotal
 namespace EG.C17.Stroke
 open EG
@@ -127,5 +128,120 @@ example : (⟨2, 2⟩ : Pt) ≠ ⟨6, 4⟩ ∧ (2 : Nat) ≤ 5 ∧
     0 ≤ L2 ⟨⟨2, 2⟩, ⟨6, 4⟩⟩ - dot ⟨⟨2, 2⟩, ⟨6, 4⟩⟩ ⟨4, 2⟩ ∧
     L2 ⟨⟨2, 2⟩, ⟨6, 4⟩⟩ ≤ (L2 ⟨⟨2, 2⟩, ⟨6, 4⟩⟩ - dot ⟨⟨2, 2⟩, ⟨6, 4⟩⟩ ⟨4, 2⟩) ^ 2 ∧
     cross ⟨⟨2, 2⟩, ⟨6, 4⟩⟩ ⟨4, 2⟩ = -4 := by decide
+
+
+/-! ### The band claim "within w/2 + 2.5 pixels of the ideal line"
+
+The claim is false for wide oblique strokes (`thick_band_false` in EG/Props/C17.lean, known finding
+`C17:thick-band:wide-stroke-overcount`). What IS true, for every line and width: -/
+
+/-- The band claim of the property text for one stroke (the oracle's predicate `C17:thick-band`). -/
+def ThickBand (l : Line) (w : Nat) : Prop :=
+  ∀ ps, Thick.thickPoints l w = some ps → ∀ p ∈ ps, 4 * cross l p ^ 2 ≤ ((w : Int) + 5) ^ 2 * L2 l
+
+/-- **The band claim with the overcount made explicit.** `E` = the number of `Extra` parallels the
+`ParallelsIterator` of the stroke yields (`Thick.ExtraParallels l w E`; `E` is unique,
+`Thick.extraParallels_unique`), `D = max(|dx|,|dy|)`, `d = min(|dx|,|dy|)`. Every pixel `p` satisfies
+    t = 4 |cross(p)| - (3 D - d) - 2 (D - d) E,     t <= 0  or  t^2 <= (2 w)^2 L2,
+i.e. its distance from the ideal line is at most `w/2 + (3 D - d)/(4 L) + (E/2) (D - d)/L` pixels:
+every `Extra` parallel moves the stroke one full band (`D/L` px) outwards but adds only `2 d` instead
+of `2 D` to the thickness accumulator. (Remark, arithmetic of the code and not a Lean theorem: the
+parallel error of a side satisfies `2 (D - d) e = 2 d sk -+ err`, `e` returned and `sk` skipped
+`Extra` steps of that side, `|err| <= D`; so `(E/2) (D - d)/L` is, up to 1/4 px and the difference
+between the two sides, the discount `sk(side) min(|dx|,|dy|)/L` of the oracle class
+`C17:thick-band:wide-stroke-overcount`. Witness of `thick_band_false`, (0,0)-(2,1) width 37, E = 9:
+the bound is 21.07 px, the farthest pixel is at 21.02 px, the text allows 21.) -/
+theorem thick_band_overcount_partial (l : Line) (w : Nat) (hw2 : w ≤ 2147483647) (ps : List Pt)
+    (h : Thick.thickPoints l w = some ps) :
+    ∃ E, Thick.ExtraParallels l w E ∧ 0 ≤ E ∧ ∀ p ∈ ps,
+      4 * ((cross l p).natAbs : Int) - (3 * majorLen l - minorLen l) -
+          2 * (majorLen l - minorLen l) * E ≤ 0 ∨
+      (4 * ((cross l p).natAbs : Int) - (3 * majorLen l - minorLen l) -
+          2 * (majorLen l - minorLen l) * E) ^ 2 ≤ (2 * (w : Int)) ^ 2 * L2 l := by
+  obtain ⟨E, h1, h2, _, h4⟩ := reach_cross l w hw2 ps h
+  refine ⟨E, h1, h2, ?_⟩
+  intro p hp
+  obtain ⟨a, a1, a2⟩ := h4 p hp
+  by_cases ht : 4 * ((cross l p).natAbs : Int) - (3 * majorLen l - minorLen l) -
+      2 * (majorLen l - minorLen l) * E ≤ 0
+  · exact Or.inl ht
+  · exact Or.inr (sq_le_of_le _ a _ (by omega) (by omega) a1)
+
+/-- The line (0,0)-(2,1) of width 37 (the witness of `thick_band_false`): 46 parallels, 9 of them
+`Extra` (`Thick.runPar`: the fuel-bounded list of the parallels the iterator yields). -/
+example : ((Thick.ParallelsIterator.new ⟨⟨0, 0⟩, ⟨2, 1⟩⟩ 37 .none).map
+    (fun it => ((Thick.runPar 100 it).length, Thick.exCount (Thick.runPar 100 it)))) = some (46, 9) ∧
+    (37 : Nat) ≤ 2147483647 := by decide
+
+
+/-- **The band claim holds for every stroke with few `Extra` parallels**: if
+`2 (D - d) E <= 7 D + d` (`E` = the number of `Extra` parallels, `Thick.ExtraParallels l w E`) every
+pixel is within `w/2 + 2.5` pixels of the ideal line. (For slopes near 1/2, where the overcount is
+largest, about 22 % of the parallels are `Extra` and the guard holds up to width ~33; the claim
+first fails on the real code at width 34.) -/
+theorem thick_band_partial (l : Line) (w : Nat) (hw2 : w ≤ 2147483647) (E : Int)
+    (hE : Thick.ExtraParallels l w E)
+    (hguard : 2 * (majorLen l - minorLen l) * E ≤ 7 * majorLen l + minorLen l) : ThickBand l w := by
+  intro ps h p hp
+  obtain ⟨E', h1, _, _, h4⟩ := reach_cross l w hw2 ps h
+  have hEE : E' = E := Thick.extraParallels_unique l w E' E h1 hE
+  subst hEE
+  obtain ⟨a, a1, a2⟩ := h4 p hp
+  have hD := (Thick.ctxOf_valid l).hD
+  have hd0 := (Thick.ctxOf_valid l).hd0
+  have hS : majorLen l * majorLen l ≤ L2 l := by
+    rw [L2_eq, majorLen_eq]
+    have := Int.mul_nonneg hd0 hd0
+    omega
+  have hcr : cross l p ^ 2 = ((cross l p).natAbs : Int) ^ 2 := by rw [Int.natAbs_sq]
+  rw [hcr]
+  exact band_of_reach10 _ a (majorLen l) (L2 l) w (by omega) (by rw [majorLen_eq]; omega) hS
+    (by omega) a1 (by omega)
+
+/-- The guard of `thick_band_partial` on the line (0,0)-(7,3), width 9: 11 parallels, 2 `Extra`. -/
+example : ((Thick.ParallelsIterator.new ⟨⟨0, 0⟩, ⟨7, 3⟩⟩ 9 .none).map
+    (fun it => ((Thick.runPar 100 it).length, Thick.exCount (Thick.runPar 100 it)))) = some (11, 2) ∧
+    2 * (majorLen ⟨⟨0, 0⟩, ⟨7, 3⟩⟩ - minorLen ⟨⟨0, 0⟩, ⟨7, 3⟩⟩) * 2 ≤
+      7 * majorLen ⟨⟨0, 0⟩, ⟨7, 3⟩⟩ + minorLen ⟨⟨0, 0⟩, ⟨7, 3⟩⟩ := by decide
+
+/-- **The band claim holds for axis-parallel and diagonal lines of every width** (and for
+zero-length lines), even with `w/2 + 3/4` in place of `w/2 + 5/2`: these strokes have no `Extra`
+parallel (axis-parallel) or count each of them in full (`d = D`, diagonal). -/
+theorem thick_band_axis_parallel_or_diagonal (l : Line) (w : Nat) (hw2 : w ≤ 2147483647)
+    (hdir : (strokeDir l).x = 0 ∨ (strokeDir l).y = 0 ∨
+      (strokeDir l).x.natAbs = (strokeDir l).y.natAbs) :
+    ThickBand l w ∧ ∀ ps, Thick.thickPoints l w = some ps → ∀ p ∈ ps,
+      16 * cross l p ^ 2 ≤ (2 * (w : Int) + 3) ^ 2 * L2 l := by
+  have key : ∀ ps, Thick.thickPoints l w = some ps → ∀ p ∈ ps,
+      16 * cross l p ^ 2 ≤ (2 * (w : Int) + 3) ^ 2 * L2 l ∧
+      4 * cross l p ^ 2 ≤ ((w : Int) + 5) ^ 2 * L2 l := by
+    intro ps h p hp
+    obtain ⟨E, _, h2, h3, h4⟩ := reach_cross l w hw2 ps h
+    obtain ⟨a, a1, a2⟩ := h4 p hp
+    have hD := (Thick.ctxOf_valid l).hD
+    have hd0 := (Thick.ctxOf_valid l).hd0
+    have hzero : (majorLen l - minorLen l) * E = 0 := by
+      by_cases hm : minorLen l = 0
+      · rw [h3 hm, Int.mul_zero]
+      · have : majorLen l - minorLen l = 0 := by
+          unfold majorLen minorLen at *
+          omega
+        rw [this, Int.zero_mul]
+    have hS : majorLen l * majorLen l ≤ L2 l := by
+      rw [L2_eq, majorLen_eq]
+      have := Int.mul_nonneg hd0 hd0
+      omega
+    have hcr : cross l p ^ 2 = ((cross l p).natAbs : Int) ^ 2 := by
+      rw [Int.natAbs_sq]
+    rw [hcr]
+    apply band_of_reach _ a (majorLen l) (L2 l) w (by omega) (by rw [majorLen_eq]; omega) hS
+      (by omega) a1
+    rw [Int.mul_assoc, hzero] at a2
+    rw [minorLen_eq] at a2
+    omega
+  exact ⟨fun ps h p hp => (key ps h p hp).2, fun ps h p hp => (key ps h p hp).1⟩
+
+example : (strokeDir ⟨⟨3, -2⟩, ⟨-4, 5⟩⟩).x.natAbs = (strokeDir ⟨⟨3, -2⟩, ⟨-4, 5⟩⟩).y.natAbs ∧
+    (strokeDir ⟨⟨3, -2⟩, ⟨3, 9⟩⟩).x = 0 := by decide
 
 end EG.C17.Stroke
